@@ -642,6 +642,18 @@ func censusMapOrder(w *World, r *Report) []*Obligation {
 		out = append(out, o)
 	}
 	r.Extra["map_range_sites"] = len(sites)
+	// the claim is about the tree, not about the sites that existed when the ledger was written: a
+	// new range over a map (or a new caller of a function that returns a slice in map order) that is
+	// order-sensitive fails this obligation
+	var badSites []string
+	for _, s := range sites {
+		if len(s.probs) > 0 {
+			badSites = append(badSites, s.name+" ("+s.src+"): "+strings.Join(s.probs, "; "))
+		}
+	}
+	all := censusObl("C05", "C05/tree/maporder#1", "frame", "", fmt.Sprintf("every range over a map in lint-reachable code (%d sites, callers of functions returning slices in map order included) feeds only order-insensitive sinks", len(sites)), len(badSites) == 0, strings.Join(badSites, " | "))
+	all.Solver = "frame-checker"
+	out = append(out, all)
 	return out
 }
 
@@ -674,7 +686,7 @@ func censusSignatureReads(w *World, r *Report) []*Obligation {
 		}
 	}
 	extOK := map[string]bool{"GetParsedDNSNames": true, "GetParsedSubjectCommonName": true}
-	var sig, fp, self, raw, whole []string
+	var sig, fp, self, raw, whole, rawflow []string
 	nreads := 0
 	for fn := range reach {
 		for _, b := range fn.Blocks {
@@ -720,6 +732,11 @@ func censusSignatureReads(w *World, r *Report) []*Obligation {
 					case name == "Raw":
 						if !rawOK[funcKeyQualified(fn)] {
 							raw = append(raw, where)
+						} else {
+							// the listed readers were inspected as decoders: the complete encoding goes
+							// into a cryptobyte.String that is walked by its methods, or into
+							// asn1.Unmarshal - it is never sliced, indexed, compared or printed
+							rawflow = append(rawflow, rawFlowProblems(w, fn, x)...)
 						}
 					}
 				case *ssa.Call:
@@ -758,15 +775,124 @@ func censusSignatureReads(w *World, r *Report) []*Obligation {
 	}
 	r.Trusted = append(r.Trusted,
 		"parser: SelfSigned implies RawSubject == RawIssuer (zcrypto parseCertificate), so for non-self-issued certificates util.IsSelfSigned is false whatever the signature",
-		"the functions in table c09_raw_readers depend on c.Raw only through tbsCertificate / signatureAlgorithm / successful decoding (assumed per-function contract, by inspection)",
+		"the functions in table c09_raw_readers depend on c.Raw only through tbsCertificate / signatureAlgorithm / successful decoding: checked structurally (obligation rawflow: the encoding and the certificate's content are walked only element by element with cryptobyte's ASN.1 methods, at most two elements are taken out of the content, or the whole is handed to asn1.Unmarshal); assumed: cryptobyte's element readers consume exactly one element, and asn1.Unmarshal's result is used without its signature field (by inspection of certExtensionInvalidDER)",
 		"external accessors GetParsedDNSNames / GetParsedSubjectCommonName do not read the signature")
 	return []*Obligation{
 		mk("signature", "Certificate.Signature is read only as the operand of len/cap", sig),
 		mk("fingerprints", "fingerprints over the complete encoding and ValidSignature are never read", fp),
 		mk("selfsigned", "Certificate.SelfSigned is read only by util.IsSelfSigned", self),
 		mk("raw", "Certificate.Raw is read only by the functions listed in table c09_raw_readers", raw),
+		mk("rawflow", "in the listed readers the complete encoding is only handed to decoders (a cryptobyte.String walked element by element with its ASN.1 methods, asn1.Unmarshal): never read by octet count, sliced, indexed, compared, formatted or passed elsewhere", rawflow),
 		mk("whole", "the certificate is never passed whole to an external function (other than the name-parsing accessors) nor boxed into an interface", whole),
 	}
+}
+
+// rawFlowProblems: uses of the value loaded from &c.Raw (fa) inside a listed reader that are not
+// "hand it to a decoder".
+func rawFlowProblems(w *World, fn *ssa.Function, fa *ssa.FieldAddr) []string {
+	var bad []string
+	say := func(in ssa.Instruction, what string) {
+		bad = append(bad, fmt.Sprintf("%s (%s): %s", funcDisplayName(fn), posStr(w.Fset, in.Pos()), what))
+	}
+	isDecoderCall := func(c *ssa.CallCommon) bool {
+		callee := c.StaticCallee()
+		if callee == nil {
+			return false
+		}
+		n := callee.String()
+		if strings.Contains(n, "cryptobyte.String)") {
+			// element-wise walking only: ReadASN1*, SkipASN1, SkipOptionalASN1, PeekASN1Tag, Empty. The
+			// length-driven readers (ReadBytes, Skip, CopyBytes, ReadUint*) take octets wherever
+			// they are, element boundaries or not
+			return strings.Contains(callee.Name(), "ASN1") || callee.Name() == "Empty"
+		}
+		return strings.HasSuffix(n, "asn1.Unmarshal") || strings.HasSuffix(n, "asn1.UnmarshalWithParams")
+	}
+	var follow func(v ssa.Value, depth int)
+	// checkVar: a local cryptobyte.String that holds (part of) the encoding - the variable the
+	// encoding was converted into, and every variable a decoder method filled from such a variable
+	// Containers are the variable the encoding was converted into (depth 0: the Certificate TLV) and
+	// the variable its content was read into (depth 1: tbsCertificate, signatureAlgorithm,
+	// signatureValue). They may only be walked with the ASN.1 methods, and at most two elements may
+	// be taken out of the depth-1 container - the third one is the signature. What was taken out
+	// (depth 2: tbsCertificate, signatureAlgorithm) is free of signature octets and unrestricted.
+	seenVar := map[*ssa.Alloc]bool{}
+	var checkVar func(al *ssa.Alloc, depth int)
+	checkVar = func(al *ssa.Alloc, depth int) {
+		if seenVar[al] || depth >= 2 {
+			return
+		}
+		seenVar[al] = true
+		reads := 0
+		for _, r2 := range *al.Referrers() {
+			switch y := r2.(type) {
+			case *ssa.DebugRef, *ssa.Store:
+			case *ssa.Call:
+				if !isDecoderCall(&y.Call) {
+					say(y, "a container of the signature is passed to "+calleeName(&y.Call))
+					continue
+				}
+				if len(y.Call.Args) > 0 && y.Call.Args[0] == ssa.Value(al) && !strings.HasPrefix(y.Call.StaticCallee().Name(), "Peek") && y.Call.StaticCallee().Name() != "Empty" {
+					reads++
+				}
+				// out-parameters of the decoder receive parts of the container
+				for _, a := range y.Call.Args {
+					if out, ok := a.(*ssa.Alloc); ok && out != al {
+						if pt, ok := out.Type().Underlying().(*types.Pointer); ok && strings.Contains(pt.Elem().String(), "cryptobyte.String") {
+							checkVar(out, depth+1)
+						}
+					}
+				}
+			case *ssa.UnOp:
+				follow(y, 1)
+			default:
+				say(r2, fmt.Sprintf("a container of the signature is used by %T", r2))
+			}
+		}
+		if depth == 1 && reads > 2 {
+			say(al, fmt.Sprintf("%d elements are taken out of the certificate's content; the third one is the signature", reads))
+		}
+	}
+	follow = func(v ssa.Value, depth int) {
+		if v.Referrers() == nil || depth > 6 {
+			return
+		}
+		for _, r := range *v.Referrers() {
+			switch x := r.(type) {
+			case *ssa.DebugRef:
+			case *ssa.ChangeType: // cryptobyte.String(c.Raw)
+				follow(x, depth+1)
+			case *ssa.Store:
+				// into a local (the `input` variable): its address is then only used by decoder methods / loads
+				if al, ok := x.Addr.(*ssa.Alloc); ok && x.Val == v {
+					checkVar(al, 0)
+				} else {
+					say(x, "the encoding is stored outside a local decoder variable")
+				}
+			case *ssa.Call:
+				if b, ok := x.Call.Value.(*ssa.Builtin); ok && (b.Name() == "len" || b.Name() == "cap") {
+					continue
+				}
+				if !isDecoderCall(&x.Call) {
+					say(x, "the encoding is passed to "+calleeName(&x.Call))
+				}
+			case *ssa.Phi:
+				follow(x, depth+1)
+			default:
+				say(r, fmt.Sprintf("the encoding is used by %T (sliced, indexed, boxed or compared)", r))
+			}
+		}
+	}
+	for _, r := range *fa.Referrers() {
+		switch x := r.(type) {
+		case *ssa.DebugRef:
+		case *ssa.UnOp:
+			follow(x, 0)
+		default:
+			say(r, "the address of Raw is taken")
+		}
+	}
+	return bad
 }
 
 func funcKeyQualified(fn *ssa.Function) string {
